@@ -237,6 +237,26 @@ pub fn run(tier: Tier) -> i32 {
                 one_text(&ctx, acc, l, &lang, &text, has_num);
             }
         }));
+        // address-like shapes: word sign word sign word, without blanks (mail addresses, paths, times, tags)
+        {
+            let c = vocab::cls(l);
+            let ws = [c.one.clone(), c.tens.clone(), c.ordinary.clone()];
+            let signs = ["@", ".", "-", "_", ":", "/", "#", "+", "="];
+            let mut acc2 = Acc::new();
+            for a in &ws {
+                for p1 in signs {
+                    for b in &ws {
+                        for p2 in signs {
+                            for cc in &ws {
+                                one_text(&ctx, &mut acc2, l, &lang, &format!("{a}{p1}{b}{p2}{cc}"), true);
+                                one_text(&ctx, &mut acc2, l, &lang, &format!("xyzzy {a}{p1}{b}{p2}{cc}.xyzzy plugh"), true);
+                            }
+                        }
+                    }
+                }
+            }
+            total.merge(acc2);
+        }
         let mut words: Vec<String> = vocab::sigma_cls(l).into_iter().take(tier.pick(14, 16)).collect();
         // an empty token (a decoder's silence)
         words.push(String::new());
